@@ -473,7 +473,10 @@ static int tap_main(int argc, char* const* argv)
         }
         instance.tx = MakeTransactionRef(mtx);
 
-        instance.configure_tx_txin();
+        if (!instance.configure_tx_txin()) {
+            // (the reason has been printed) the signature hash below needs what configure_tx_txin sets up
+            abort("unable to set up the spend of that output with the given transaction");
+        }
         instance.execdata.m_codeseparator_pos = 0xFFFFFFFFUL;
         instance.execdata.m_codeseparator_pos_init = true;
 
